@@ -655,6 +655,8 @@ package server
 //@   at call ProxyServerProtocol.ProcessLockResultCommandLocked assert C11.ack.code: arg2 == ite(atsection(lock.expried) && atsection(lock.locked) != 0, ite(succed, protocol.RESULT_SUCCED, protocol.RESULT_ERROR), protocol.RESULT_LOCKED_ERROR) && arg1 == atsection(lock.command)
 //@   at call RemoveLock assert C11.ack.rollback: !succed && lockManager.locked == u32(atsection(lockManager.locked) - atsection(lock.locked)) && implies(atsection(lock.command.Flag)&0x20 != 0, calls(ProcessRecoverLockData) == 1)
 //@   at call ProxyServerProtocol.ProcessLockResultCommandLocked assert C03.ack.disarms-timeout,C01.ack.disarms-timeout,C11.ack.disarms-timeout: lock.timeouted || calls(FreeLock) >= 1
+//@   at call AddExpried assert C06.ack.unit: lock.command.ExpriedFlag&0x0400 == 0
+//@   at call AddMillisecondExpried assert C06.ack.unit-ms: lock.command.ExpriedFlag&0x0400 != 0
 //@   ensures C03.ack.once,C11.ack.once: calls(ProxyServerProtocol.ProcessLockResultCommandLocked) == ite(atsection(lock.ackCount) == 0xff, 0, 1)
 //@   ensures C11.ack.settled: implies(atsection(lock.ackCount) != 0xff && calls(wakeUpWaitLocks) == 0, lock.ackCount == 0xff)
 //@   ensures C04.ack.wake,C11.ack.wake: implies(calls(RemoveLock) >= 1, calls(wakeUpWaitLocks) >= 1)
@@ -757,6 +759,12 @@ package server
 //@ spec func wheelEntry(db, l) = l.manager != nil && l.manager.glock != nil && l.manager.state != nil && l.manager.freeLocks != nil && l.manager.lockDb == db
 
 // ---- sweepers: a request / hold is only handed to doTimeOut / doExpried once its deadline has passed ----
+// a fresh long-wait bucket belongs to the shard and the second it was asked for: the bucket is unlinked from
+// longTimeoutLocks[glockIndex][lockTime] / longExpriedLocks[...] by exactly these two fields when its last member leaves
+//@ func NewLongWaitLockQueue
+//@   requires baseNodeSize >= 1 && nodeSize >= 1 && nodeSize < 0x40000000 && queueSize >= 1 && queueSize <= 0x3ffffff
+//@   ensures C05.longwait.bucket-owner,C06.longwait.bucket-owner,C17.longwait.bucket-owner: result != nil && result.glockIndex == glockIndex && result.lockTime == lockExpriedTime && result.lockCount == 0 && result.freeCount == 0
+
 //@ func (*LongWaitLockQueue).Push
 //@   trusted queue internals (long-wait table), subject of C20
 //@   modifies LongWaitLockQueue.*, LockQueue.*, Lock.longWaitIndex@lock, E_LJPserver_Lock, E_Pserver_Lock, E_int32
@@ -799,6 +807,7 @@ package server
 //@   at call checkTimeTimeOut assert C05.sweep.range: arg1 <= arg2 && arg2 == now
 //@   at call checkTimeTimeOut assert C05.sweep.next: self.checkTimeoutTime == i64(now + 1)
 //@   at call checkTimeTimeOut assert C05.sweep.each-second: arg1 == checkTimeoutTime
+//@   loop#4 entry C05.sweep.from-last: checkTimeoutTime == athead(self.checkTimeoutTime)
 //@   loop#4 backedge C05.sweep.each-second: checkTimeoutTime == i64(athead(checkTimeoutTime) + 1)
 //@   modifies all
 
@@ -807,6 +816,7 @@ package server
 //@   at call checkTimeExpried assert C06.sweep.range: arg1 <= arg2 && arg2 == now
 //@   at call checkTimeExpried assert C06.sweep.next: self.checkExpriedTime == i64(now + 1)
 //@   at call checkTimeExpried assert C06.sweep.each-second: arg1 == checkExpriedTime
+//@   loop#4 entry C06.sweep.from-last: checkExpriedTime == athead(self.checkExpriedTime)
 //@   loop#4 backedge C06.sweep.each-second: checkExpriedTime == i64(athead(checkExpriedTime) + 1)
 //@   modifies all
 
@@ -1249,11 +1259,22 @@ package server
 //@ func (*AofFile).Close
 //@   modifies all
 
+// C08: the newest record of a file is read from the 64-byte record grid behind the 12-byte header, whatever the
+// length of the file: after a crash inside a record the last 64 bytes of the file are the tail of one record and
+// the head of the torn one, and no record (no log position) may be made up from them
+//@ func (*AofFile).ReadTail
+//@   requires self != nil && lock != nil
+//@   at call ReadAt assert C08.tail.on-grid,C09.tail.on-grid: arg2 >= 12 && (arg2 - 12) % 64 == 0
+//@   modifies E_byte
+
 // an append file is only ever extended on the 64-byte record grid behind its 12-byte header
 // (known finding: Open keeps a torn tail, see /verif/known_findings.json)
 //@ func (*AofFile).Open
 //@   requires self != nil
 //@   ensures C08.open.aligned: implies(isnil(result) && self.mode == 1, self.size >= 12 && (self.size - 12) % 64 == 0)
+// the header is only ever written into an empty file: a partial header left by a crash is cut off first (O_APPEND
+// writes go to the end of the file whatever the seek position is)
+//@   at call WriteHeader assert C08.open.header-into-empty: self.size == 0 || calls(Truncate) == 1
 //@   modifies AofFile.*, E_byte
 
 // =====================================================================================================
@@ -1594,6 +1615,7 @@ package server
 //@ func (*LongWaitLockFreeQueue).GetLongWaitLockQueue
 //@   requires self != nil
 //@   ensures C05.longtable.keyed,C06.longtable.keyed: result != nil && result.lockTime == lockExpriedTime && result.lockCount == 0 && result.freeCount == 0
+//@   ensures C05.longtable.shard,C06.longtable.shard,C17.longtable.shard: implies(old(self.freeIndex) < 0, result.glockIndex == glockIndex)
 //@   modifies LongWaitLockFreeQueue.*, LongWaitLockQueue.*, E_Pserver_LongWaitLockQueue
 
 // C08: an append file that ends inside (or before) its 12-byte header reports the reader's own error (end of
